@@ -19,7 +19,7 @@ from __future__ import annotations
 
 import ast
 
-from ..core import AnalysisError, const_value, norm, walk_own, walk_stmts, names_in, same_func
+from ..core import AnalysisError, const_value, norm, walk_own, walk_stmts, names_in, same_func, local_defs
 from ..paths import enum_paths, canon_test
 from .common import key_of, gaf_schema
 
@@ -193,6 +193,25 @@ def r17_6(ctx):
     def is_parse_call(f, c):
         return isinstance(c, ast.Call) and same_func(repo.resolve_call(f, c), pf)
 
+    # ---- the parser turns no line away for the number of its columns unless mandatory columns are missing: a record with
+    # exactly the 12 mandatory columns and no optional field is a valid record
+    from .c09 import guards_of as _go6
+
+    for r_ in walk_own(pf.node):
+        if isinstance(r_, (ast.Return, ast.Raise)) and (isinstance(r_, ast.Raise) or r_.value is None or (isinstance(r_.value, ast.Constant) and r_.value.value is None)):
+            for t_, pol_ in _go6(pf.node, r_):
+                for c_ in ast.walk(t_):
+                    if isinstance(c_, ast.Compare) and len(c_.ops) == 1 and isinstance(c_.left, ast.Call) and norm(c_.left.func) == "len" and isinstance(const_value(c_.comparators[0]), int):
+                        import operator as _op
+
+                        fn_ = {ast.Eq: _op.eq, ast.NotEq: _op.ne, ast.Lt: _op.lt, ast.LtE: _op.le, ast.Gt: _op.gt, ast.GtE: _op.ge}.get(type(c_.ops[0]))
+                        if fn_ is None or norm(t_) != norm(c_) and not (isinstance(t_, ast.UnaryOp) and norm(t_.operand) == norm(c_)):
+                            continue
+                        val_ = fn_(12, const_value(c_.comparators[0]))
+                        if isinstance(t_, ast.UnaryOp):
+                            val_ = not val_
+                        if val_ == pol_ and "split" in " ".join(norm(d_) for d_ in (local_defs(pf.node).get(norm(c_.left.args[0]), []) or []) if d_ is not None):
+                            ctx.violated("R17.6", pf.where(r_), f"the parser turns a line away when `{norm(t_)[:50]}`, which holds for a line of exactly 12 columns: a record with the mandatory columns and no optional field is valid and is lost (every consumer of the reader misses it)", key_of(pf, f"parser-refuses-12-columns:{norm(c_)[:40]}"))
     # ---- read_file: a generator of the reader class
     gens = [f for f in methods if _yields(f.node) and not same_func(f, pf)]
     n_gen = 0
@@ -519,6 +538,35 @@ def r07_12(ctx, g):
                 raise AnalysisError("R07.12", rgn.where(lp), f"a link of the file is not added under `{why[0][:100]}`: cannot decide which links that drops")
         ctx.holds("R07.12", rgn.where(lp), f"every link whose two segments exist is added to the graph ({len(paths)} paths through the link loop)")
     ctx.require_count("R07.12", nl, 1, rg.where(), "loop adding the links of the file")
+    # segments: an S line is not left out of the graph because of what its sequence column holds (IUPAC codes, lower case, `*`)
+    for iff in walk_own(rgn.node):
+        if isinstance(iff, ast.If) and "startswith('S')" in norm(iff.test).replace('"', "'"):
+            addn = [c for c in ast.walk(iff) if isinstance(c, ast.Call) and isinstance(c.func, ast.Attribute) and c.func.attr == "add_node"]
+            if not addn:
+                continue
+            for st in walk_stmts(iff.body):
+                if isinstance(st, (ast.Continue, ast.Break)) or (isinstance(st, ast.Return)):
+                    from .c09 import guards_of as _go7
+
+                    for t_, pol_ in _go7(rgn.node, st):
+                        if any(x is t_ for x in ast.walk(iff.test)) or not any(x is t_ for x in ast.walk(iff)):
+                            continue
+                        col2 = any(isinstance(x, ast.Subscript) and const_value(x.slice, None) == 2 for x in ast.walk(t_))
+                        if col2 and any(isinstance(x, ast.Call) for x in ast.walk(t_)) or (col2 and any(isinstance(x, ast.Compare) and isinstance(x.ops[0], (ast.In, ast.NotIn)) for x in ast.walk(t_))):
+                            ctx.violated("R07.12", rgn.where(st), f"an S line is skipped when `{norm(t_)[:70]}`: the test looks at the sequence column, and a segment whose sequence it does not accept (IUPAC ambiguity codes such as R / Y / M occur in GRCh38) is left out of the graph together with its links — every numbering, order and output derived from the graph changes", key_of(rgn, f"segment-filter:{norm(t_)[:40]}"))
+    # the overlap of a link is stored as given: add_edge does not bind its overlap parameter again (a clamp to the segment lengths
+    # rewrites every overlap to 0 when the graph was loaded without sequences, as order_gfa and sort do)
+    ae = repo.func("gaftools.gfa", "GFA.add_edge", "R07.12")
+    ovp = [p_ for p_ in ae.params if "overlap" in p_.lower() or p_.lower() in ("ovl", "ov")]
+    if not ovp:
+        raise AnalysisError("R07.12", ae.where(), "add_edge has no overlap parameter")
+    for st in walk_own(ae.node):
+        tg = st.targets if isinstance(st, ast.Assign) else ([st.target] if isinstance(st, ast.AugAssign) else [])
+        if any(isinstance(x, ast.Name) and x.id == ovp[0] for t in tg for x in ast.walk(t)):
+            v = st.value
+            if isinstance(st, ast.Assign) and isinstance(v, ast.Call) and norm(v.func) == "int" and len(v.args) == 1 and norm(v.args[0]) == ovp[0]:
+                continue  # a conversion of the same number
+            ctx.violated("R07.12", ae.where(st), f"`{norm(st)[:60]}` changes the overlap of the link before it is stored: the link written back (and every later load of it) carries another overlap than the file — with segment lengths of 0 (graphs loaded without sequences) every overlap becomes 0M", key_of(ae, f"overlap-rebound:{norm(st.value)[:40]}"))
 
 
 # ---------------------------------------------------------------------------------------------
@@ -820,6 +868,17 @@ def path_tokenisers(ctx):
             if meth not in ("split", "findall", "finditer") or "<" not in pat or ">" not in pat:
                 continue
             n += 1
+            # the steps found are the steps used: the list is not thinned out afterwards (a step equal to its predecessor is a
+            # second visit — a self-loop `>rep>rep` — not a duplicate)
+            for a_ in walk_own(f.node):
+                if isinstance(a_, ast.Assign) and len(a_.targets) == 1 and isinstance(a_.targets[0], ast.Name) and a_.value is c:
+                    tv_ = a_.targets[0].id
+                    for b_ in walk_own(f.node):
+                        if isinstance(b_, ast.Assign) and b_ is not a_ and len(b_.targets) == 1 and norm(b_.targets[0]) == tv_ and f.before(a_, b_):
+                            v_ = b_.value
+                            thinned = (isinstance(v_, ast.ListComp) and any(g_.ifs for g_ in v_.generators) and tv_ in {x_.id for g_ in v_.generators for x_ in ast.walk(g_.iter) if isinstance(x_, ast.Name)} and isinstance(v_.elt, ast.Name)) or (isinstance(v_, ast.Call) and norm(v_.func) in ("list",) and v_.args and isinstance(v_.args[0], ast.Call) and norm(v_.args[0].func) in ("filter", "dict.fromkeys", "set") and tv_ in {x_.id for x_ in ast.walk(v_.args[0]) if isinstance(x_, ast.Name)}) or (isinstance(v_, ast.ListComp) and isinstance(v_.elt, ast.Subscript) and any("groupby" in norm(g_.iter) for g_ in v_.generators))
+                            if thinned and not (isinstance(v_, ast.ListComp) and all(norm(i_) in (v_.generators[0].target.id if isinstance(v_.generators[0].target, ast.Name) else "", f"{norm(v_.generators[0].target)} != ''") for g_ in v_.generators for i_ in g_.ifs)):
+                                ctx.violated("R14.5", f.where(b_), f"`{norm(b_)[:70]}` removes steps from the path after it was cut into steps: a walk that visits the same oriented segment twice in a row (a self-loop `>a>rep>rep>b`) is spelled / checked / anchored with one visit missing while its coordinates still count both", key_of(f, f"steps-thinned:{tv_}"))
             try:
                 tree = list(sp.parse(pat))
             except Exception as ex:  # noqa: BLE001
@@ -1133,6 +1192,19 @@ def lifecycle_lints(ctx, funcs, rule):
             stores = sum(1 for x in walk_own(f.node) if isinstance(x, ast.Name) and x.id == g_ and isinstance(x.ctx, ast.Store))
             if stores != 1:
                 continue
+            # truth value of an iterator object: always true, also when it will yield nothing
+            for x in walk_own(f.node):
+                if isinstance(x, (ast.If, ast.While, ast.IfExp, ast.Assert)):
+                    t_ = x.test
+                    while isinstance(t_, ast.UnaryOp) and isinstance(t_.op, ast.Not):
+                        t_ = t_.operand
+                    atoms = t_.values if isinstance(t_, ast.BoolOp) else [t_]
+                    for a_ in atoms:
+                        while isinstance(a_, ast.UnaryOp) and isinstance(a_.op, ast.Not):
+                            a_ = a_.operand
+                        if isinstance(a_, ast.Name) and a_.id == g_ and getattr(x, "lineno", 0) > defs[0].lineno:
+                            n += 1
+                            ctx.violated(rule, f.where(x), f"`{norm(x.test)[:40]}` asks for the truth value of `{g_}`, which is bound to the iterator `{norm(defs[0].value)[:40]}`: an iterator object is always true, also when it will yield nothing, so the 'nothing found' outcome this test stands for is never taken (or always, for `if {g_}`)", key_of(f, f"iterator-truth-value:{g_}"))
             uses = []
             for x in walk_own(f.node):
                 if isinstance(x, ast.For) and isinstance(x.iter, ast.Name) and x.iter.id == g_:
@@ -1144,8 +1216,8 @@ def lifecycle_lints(ctx, funcs, rule):
                     if k_ >= 2:
                         n += 1
                         ctx.violated(rule, f.where(x), f"`{norm(x)[:50]}` takes the one-shot iterator `{g_}` twice: both arguments draw from the same stream, so the pairs are (1st, 2nd), (3rd, 4th), ... and every other consecutive pair is never looked at", key_of(f, f"iterator-zipped-with-itself:{g_}"))
-                    elif k_ == 1 and x.func.id != "len":
-                        uses.append(x)
+                    elif k_ == 1 and x.func.id not in ("len", "next"):
+                        uses.append(x)  # (`next(it, None)` takes one item: the primed `while` loop over an explicit iterator is not two consumers)
             # uses inside the loop that the definition is also in are re-evaluated per iteration with a fresh iterator
             def_loop = next((l_ for l_ in walk_own(f.node) if isinstance(l_, (ast.For, ast.While)) and any(y is defs[0] for y in ast.walk(l_))), None)
             uses = [u for u in uses if def_loop is None or any(y is u for y in ast.walk(def_loop)) or True]
@@ -1633,6 +1705,84 @@ def _use_before_check_lint(ctx, funcs, rule):
     return n
 
 
+def tolerance_lints(ctx, funcs, rule):
+    r"""'Be more tolerant / validate / skip bad records' code that changes what VALID input produces, recognisable without a model:
+    (a) a line of a file is skipped, or reading stops, under a test that the line lacks its line end: the last record of a
+        file without a final newline is a valid record;
+    (b) a regular expression that spells a path step as `[<>]` followed by `\w+` (or another class narrower than 'anything
+        but < and >'): segment names may contain any printable character (`utg1.2`, `chr1:100-200`, `h1#s3`, `s-4`);
+    (c) `value or K` with a non-zero number K where `value` is a number read from the data (`int(...)`, a BO / NO / start /
+        mapping quality): a legal 0 is replaced by K."""
+    import re as _re
+
+    from ..core import norm, walk_own, walk_stmts, const_value
+    from .c09 import guards_of
+
+    n = 0
+    EXITS = (ast.Continue, ast.Break, ast.Return, ast.Raise)
+    for f in funcs:
+        own = list(walk_own(f.node))
+        # (a)
+        for st in walk_stmts(f.node.body):
+            if not isinstance(st, EXITS):
+                continue
+            for t, pol in guards_of(f.node, st):
+                for c in ast.walk(t):
+                    lacks = None
+                    if isinstance(c, ast.Call) and isinstance(c.func, ast.Attribute) and c.func.attr == "endswith" and c.args and const_value(c.args[0]) in ("\n", b"\n", "\r\n"):
+                        lacks = c
+                    elif isinstance(c, ast.Compare) and len(c.ops) == 1 and isinstance(c.left, ast.Subscript) and const_value(c.left.slice) == -1 and const_value(c.comparators[0]) in ("\n", b"\n"):
+                        lacks = c
+                    if lacks is None:
+                        continue
+                    # polarity: the exit is taken when the line does NOT end in a newline
+                    par_not = any(isinstance(u, ast.UnaryOp) and isinstance(u.op, ast.Not) and any(y is lacks for y in ast.walk(u.operand)) for u in ast.walk(t))
+                    neq = isinstance(lacks, ast.Compare) and isinstance(lacks.ops[0], ast.NotEq)
+                    taken_when_missing = (par_not or neq) == pol
+                    if taken_when_missing:
+                        n += 1
+                        ctx.violated(rule, f.where(st), f"`{norm(st)[:30]}` is taken when the line read does not end in a newline (`{norm(t)[:60]}`): only the last line of a file can lack it, and a last record without a final newline is a valid record (gaftools' own writers produce such files) — it is dropped / not indexed, for plain text input only", key_of(f, f"unterminated-last-line-skipped:{norm(lacks)[:40]}"))
+                        break
+        # (b)
+        for c in own:
+            if isinstance(c, ast.Constant) and isinstance(c.value, str) and ("<" in c.value and ">" in c.value) and ("\\w" in c.value or "[A-Za-z0-9" in c.value or "[a-zA-Z0-9" in c.value or "\\d" in c.value or "[0-9" in c.value):
+                m = _re.search(r"\[(?:<>|><|\\<\\>|\\>\\<)\]\)?\(?(\\w|\\d|\[[^\]^][^\]]*\])[+*]", c.value)
+                if m is None:
+                    continue
+                cls = m.group(1)
+                try:
+                    rx = _re.compile(cls)
+                except _re.error:
+                    continue
+                missing = [ch for ch in ".:-#" if not rx.fullmatch(ch)]
+                if missing:
+                    n += 1
+                    ctx.violated(rule, f.where(c), f"the pattern `{c.value[:50]}` spells a path step as a sign followed by `{cls}`, which does not accept {', '.join(repr(x) for x in missing)}: segment names of a valid graph may contain any printable character but the two signs (`utg1.2`, `chr1:100-200`, `h1#s3`, `s-4`), and a path through such a segment is treated as malformed", key_of(f, f"narrow-segment-name-class:{cls[:20]}"))
+        # (c)
+        for b in own:
+            if isinstance(b, ast.BoolOp) and isinstance(b.op, ast.Or) and len(b.values) == 2:
+                a_, k_ = b.values
+                kv = const_value(k_)
+                if isinstance(k_, ast.UnaryOp) and isinstance(k_.op, ast.USub) and isinstance(const_value(k_.operand), (int, float)):
+                    kv = -const_value(k_.operand)
+                if not isinstance(kv, (int, float)) or isinstance(kv, bool) or kv == 0:
+                    continue
+                numeric = False
+                if isinstance(a_, ast.Call) and (norm(a_.func) == "int" or norm(a_.func).split(".")[-1].startswith("int")):
+                    numeric = True
+                elif isinstance(a_, ast.Name):
+                    low = a_.id.lower()
+                    defs = [d for d in own if isinstance(d, ast.Assign) and any(isinstance(x, ast.Name) and x.id == a_.id for t in d.targets for x in ast.walk(t))]
+                    if any(isinstance(x, ast.Call) and norm(x.func) == "int" for d in defs for x in ast.walk(d.value)) or low in ("bo", "no", "start", "mapq", "mapping_quality", "offset", "so", "sr"):
+                        numeric = True
+                    if a_.id in f.params and not defs and low not in ("bo", "no", "start", "mapq", "mapping_quality", "offset"):
+                        numeric = False
+                if numeric:
+                    n += 1
+                    ctx.violated(rule, f.where(b), f"`{norm(b)[:50]}`: `or` replaces every falsy value, so a legal value 0 of `{norm(a_)[:30]}` (bubble 0, offset 0, mapping quality 0) becomes {kv}", key_of(f, f"falsy-number-default:{norm(a_)[:30]}"))
+    return n
+
+
 def tag_pop_reinsert(ctx, rule):
     """A key taken out of a record's tag mapping (`tags.pop(k)`, `del tags[k]`) and stored again moves to the end of the
     insertion-ordered dict: the record is written with its optional fields in another order."""
@@ -1702,6 +1852,7 @@ def pre_lints(ctx):
                 if isinstance(a_, ast.Name) and a_.id in f.params and isinstance(b_, ast.Constant) and isinstance(b_.value, (int, float, str)) and not isinstance(b_.value, bool) and b_.value not in (0, ""):
                     n += 1
                     ctx.violated("R00.10", f.where(st), f"`{norm(st)[:60]}`: `or` replaces every falsy value, so a legal {a_.id} of 0 (or an empty string) read from the file becomes {b_.value!r} in the record", key_of(f, f"falsy-default:{st.targets[0].attr}"))
+    n += tolerance_lints(ctx, funcs, "R00.12")
     NUMERIC_TAGS = ("SO", "BO", "NO", "LN", "SR")
     for f in funcs:
         for c in walk_own(f.node):
